@@ -27,7 +27,7 @@ def _index_by_sobject(mappings):
     indexed_by_sobject = {}
     for idx, (mapping_name, mapping) in enumerate(mappings.items()):
         # make an index of the order of objects
-        sobject = mapping["sf_object"]
+        sobject = mapping["table"]
         existing_index = indexed_by_sobject.get(sobject)
 
         if existing_index:
